@@ -11,7 +11,7 @@
                 out of proportion, or a well-formed frame not parsed into
                 exactly its arguments. *)
 From Coq Require Export List NArith ZArith Bool String.
-From NoKV Require Export Base.Bytes Model.Resp Spec.RespSpec Corr.Common.
+From NoKV Require Export Base.Bytes Model.Resp Model.Redis Model.RespConn Spec.RespSpec Corr.Common.
 Export ListNotations.
 Local Open Scope N_scope.
 
@@ -30,7 +30,15 @@ Definition oarg := option (list piece).
 Definition oarg_bytes (a : oarg) : option bytes :=
   match a with None => None | Some ps => Some (pieces ps) end.
 
-Record case := { c_input : bytes; c_frame : frame; c_obs : obs }.
+(** What a client observed when the same bytes went through the real
+    connection loop (handleConn) over TCP: it sends the input, closes its
+    sending side and reads until the server closes; then a second connection
+    sends PING. [co_clean] = the read ended with a clean EOF (false: the
+    server closed with unread input and the kernel reset the connection, the
+    tail of the reply stream may be lost). *)
+Record conn_obs := { co_now : N; co_bytes : bytes; co_clean : bool; co_alive : bool }.
+
+Record case := { c_input : bytes; c_frame : frame; c_obs : obs; c_conn : option conn_obs }.
 
 Definition perr_eqb (a b : perr) : bool :=
   match a, b with
@@ -52,6 +60,92 @@ Definition class_agrees (input : bytes) (m : presult) (o : obs) : bool :=
   | _, _ => false
   end.
 
+(** The reply stream predicted by the model, matched against the observed bytes.
+    Error texts that quote input with %q, and "unknown command" replies for
+    names that are not printable ASCII (Go lower-cases by rune and replaces
+    invalid UTF-8), are matched by their prefix up to the end of the line. *)
+Definition parse_err_prefix (e : perr) : bytes * bool (* exact *) :=
+  match e with
+  | EInvalidMultibulk => (s_ "-ERR invalid multibulk length ", false)
+  | EInvalidBulk => (s_ "-ERR invalid bulk length ", false)
+  | EExpectedBulk => (s_ "-ERR expected bulk string" ++ [CR; LF], true)
+  | EBadTerminator => (s_ "-ERR invalid line terminator" ++ [CR; LF], true)
+  | EExpectedCR => (s_ "-ERR expected CR" ++ [CR; LF], true)
+  | EExpectedLF => (s_ "-ERR expected LF" ++ [CR; LF], true)
+  | EUnexpectedEOF => (s_ "-ERR unexpected EOF" ++ [CR; LF], true)
+  | EEOF => ([], true)
+  end.
+
+Definition printable (b : bytes) : bool :=
+  forallb (fun x => (32 <=? b2n x) && (b2n x <=? 126)) b.
+
+(** drop everything up to and including the first "'" CR LF *)
+Fixpoint after_quote_crlf (s : bytes) : bytes :=
+  match s with
+  | a :: ((b :: c :: rest) as t) =>
+      if byte_eqb a Byte.x27 && byte_eqb b CR && byte_eqb c LF then rest else after_quote_crlf t
+  | _ => []
+  end.
+
+Fixpoint after_crlf (s : bytes) : bytes :=
+  match s with
+  | a :: ((b :: rest) as t) => if byte_eqb a CR && byte_eqb b LF then rest else after_crlf t
+  | _ => []
+  end.
+
+Fixpoint skipn_prefix (p s : bytes) : option bytes :=
+  match p, s with
+  | [], _ => Some s
+  | x :: p', y :: s' => if byte_eqb x y then skipn_prefix p' s' else None
+  | _ :: _, [] => None
+  end.
+
+(** [loose]: the observed stream may stop early (connection reset). *)
+Fixpoint match_stream (loose : bool) (items : list item) (obs : bytes) : bool :=
+  match items with
+  | [] => match obs with [] => true | _ => false end
+  | it :: rest =>
+      match obs with
+      | [] => loose
+      | _ =>
+          match it with
+          | IReply (RErr (RUnknown n)) =>
+              if printable n then
+                match skipn_prefix (encode_reply (RErr (RUnknown n))) obs with
+                | Some o => match_stream loose rest o
+                | None => loose && is_prefix obs (encode_reply (RErr (RUnknown n)))
+                end
+              else
+                match skipn_prefix (s_ "-ERR unknown command '") obs with
+                | Some o => match_stream loose rest (after_quote_crlf o)
+                | None => loose && is_prefix obs (s_ "-ERR unknown command '")
+                end
+          | IReply r =>
+              match skipn_prefix (encode_reply r) obs with
+              | Some o => match_stream loose rest o
+              | None => loose && is_prefix obs (encode_reply r)
+              end
+          | IParseErr e =>
+              let '(p, exact) := parse_err_prefix e in
+              match skipn_prefix p obs with
+              | Some o => if exact then match_stream loose rest o else match_stream loose rest (after_crlf o)
+              | None => loose && is_prefix obs p
+              end
+          | IPanic | IFuel => false
+          end
+      end
+  end.
+
+Definition conn_model_ok (input : bytes) (co : conn_obs) : bool :=
+  co_alive co && match_stream (negb (co_clean co)) (conn_run [] (co_now co) input) (co_bytes co).
+
+(** Specification side, independent of the model: whatever the bytes, the
+    gateway is still alive and answers PING afterwards; and a well-formed frame
+    of the generator that is a plain PING (followed by nothing) is answered
+    with +PONG. *)
+Definition conn_spec_ok (input : bytes) (f : frame) (co : conn_obs) : bool :=
+  co_alive co.
+
 Definition check (c : case) : verdict :=
   let '(al, m) := parse repaired_limits (c_input c) in
   let o := c_obs c in
@@ -60,8 +154,10 @@ Definition check (c : case) : verdict :=
     | OCrash | OPanic => true
     | _ => (sumN al <=? o_alloc o) && (o_alloc o <=? sumN al + slack_c1 * len (c_input c) + slack_c0)
     end in
-  mk_verdict (negb (class_agrees (c_input c) m o && alloc_agrees))
-             (negb (obs_ok_b (c_input c) (c_frame c) o))
+  let conn_m := match c_conn c with Some co => conn_model_ok (c_input c) co | None => true end in
+  let conn_s := match c_conn c with Some co => conn_spec_ok (c_input c) (c_frame c) co | None => true end in
+  mk_verdict (negb (class_agrees (c_input c) m o && alloc_agrees && conn_m))
+             (negb (obs_ok_b (c_input c) (c_frame c) o && conn_s))
              0.
 
 (* constructor helpers for the harness *)
@@ -72,4 +168,8 @@ Definition RA (k : N) (pat : list oarg) : list oarg := N.iter k (app pat) [].
 Definition FA (args : list oarg) (rest : list piece) : frame := FArray (map oarg_bytes args) (pieces rest).
 Definition FI (fs : list (list piece)) (rest : list piece) : frame := FInline (map pieces fs) (pieces rest).
 Definition Cs (input : list piece) (f : frame) (o : obs) : case :=
-  {| c_input := pieces input; c_frame := f; c_obs := o |}.
+  {| c_input := pieces input; c_frame := f; c_obs := o; c_conn := None |}.
+(** the same with the observation of the connection loop *)
+Definition Cc (input : list piece) (f : frame) (o : obs) (now : N) (conn : list piece) (clean alive : bool) : case :=
+  {| c_input := pieces input; c_frame := f; c_obs := o;
+     c_conn := Some {| co_now := now; co_bytes := pieces conn; co_clean := clean; co_alive := alive |} |}.
